@@ -12,10 +12,13 @@ Model: `Nebula/Model/Segment.lean` (`segmentTCP`, `segmentUDP`, `readAndSegment`
 -/
 import Nebula.Lemmas.SegmentRun
 import Nebula.Lemmas.SegmentCsum
+import Nebula.Lemmas.SegmentTop
+import Nebula.Lemmas.SegmentPipeline
 import Nebula.Spec.Segment
 
 namespace Nebula.Props.C24
 open Nebula.Csum Nebula.Segment Nebula.Lemmas.Segment Nebula.Lemmas.SegmentRun
+open Nebula.Lemmas.SegmentInv Nebula.Lemmas.SegmentTop Nebula.Lemmas.SegmentPipeline
 
 /-! ### geometry: count, sizes, payload concatenation -/
 
@@ -156,26 +159,138 @@ theorem fold_complement_correct (x : Nat) (h : x < 2 ^ 32) : foldComplement x = 
 theorem seg_count_correct (n g : Nat) (hn : n < 2 ^ 62) (hg : g < 2 ^ 62) (hg0 : 0 < g) :
     segCount n g = max 1 ((n + g - 1) / g) := segCount_eq n g hn hg hg0
 
-/-! ### IPv4 header checksum (corollary of `Base/Csum`: incremental update + complement) -/
+/-! ### checksums of every emitted segment (corollaries of `Base/Csum`)
 
-/-- **IPv4 header checksum, per-segment writes.**  For every IPv4 header `A` (≥ 20 bytes), every
-segment length that fits the 16-bit total-length field, every original ID and every segment index, the
-three writes the segmenter performs (total length, ID `origID + i mod 2^16`, and
-`foldComplement(base + totalLen + ID)` with the base sum computed as in `baseIPv4HdrSum`) leave a header
-that verifies under RFC 1071.
+Notation: `v4 pkt` — the version nibble is 4; `ihlOf pkt` — the IHL the superpacket declares;
+`byteAt p i` — byte `i`; `addrBytes pkt isV4` — the source+destination address bytes of the superpacket;
+`hfit` — the largest segment fits the 16-bit IP length field (otherwise no valid segmentation exists);
+`hwf` — `csum_start` is not inside the fixed IPv6 header (for IPv4 the code itself checks
+`ihl ≤ csum_start`). -/
 
-`ipv4_csum_valid_partial`: this is the statement about the *header bytes the writes act on*; the lifting
-to `(segs[i]).take ihl` for the segments returned by `segmentTCP` / `segmentUDP` additionally needs
-"the later writes at offsets ≥ csum_start ≥ ihl do not touch the first `ihl` bytes", which is not yet
-proved in Lean (it is checked on every correspondence case by `Spec.Segment.checkIP`, and by the
-`decide`d examples below). -/
-theorem ipv4_csum_valid_partial (A : List UInt8) (hdrLen spl origID i : Nat)
+/-- The three IPv4 writes (total length, ID, checksum from the base sum) leave a verifying header —
+statement on the header bytes the writes act on. -/
+theorem ipv4_csum_patch (A : List UInt8) (hdrLen spl origID i : Nat)
     (hA : 20 ≤ A.length) (hfit : hdrLen + spl ≤ 65535) (hpos : 0 < hdrLen + spl) :
     verifies (patchIP A true hdrLen spl origID
       (fold2 ((checksum A 0 + compl16 (be16 A 2) + compl16 (be16 A 10) + compl16 (be16 A 4)) % 4294967296)) i) 0 :=
   Lemmas.SegmentCsum.ipv4_patch_verifies A hdrLen spl origID i hA hfit hpos
 
-example : 20 ≤ (exTCP4.take 20).length ∧ 40 + 3 ≤ 65535 := by decide
+/-- **IPv4 header checksum.** The first IHL bytes of every emitted TCP segment verify under RFC 1071. -/
+theorem tcp_ipv4_csum_valid {pkt : List UInt8} {hdrLen cs g : Nat} {segs : List (List UInt8)}
+    (h : segmentTCP pkt hdrLen cs g = .ok segs) (h4 : v4 pkt)
+    (hfit : hdrLen + min g (pkt.length - hdrLen) ≤ 65535) (i : Nat) (hi : i < segs.length) :
+    verifies ((segs[i]).take (ihlOf pkt)) 0 :=
+  Lemmas.SegmentTop.tcp_ipv4_csum_valid h h4 hfit i hi
+
+/-- **IPv4 header checksum** of every emitted UDP segment. -/
+theorem udp_ipv4_csum_valid {pkt : List UInt8} {hdrLen cs g : Nat} {segs : List (List UInt8)}
+    (h : segmentUDP pkt hdrLen cs g = .ok segs) (h4 : v4 pkt)
+    (hfit : hdrLen + min g (pkt.length - hdrLen) ≤ 65535) (i : Nat) (hi : i < segs.length) :
+    verifies ((segs[i]).take (ihlOf pkt)) 0 :=
+  Lemmas.SegmentTop.udp_ipv4_csum_valid h h4 hfit i hi
+
+/-- **TCP checksum.** The L4 bytes of every emitted TCP segment verify against the pseudo-header
+(addresses of the superpacket, protocol 6, the segment's own L4 length), when `hdrLen` is what
+`CorrectHdrLen` computes (`csum_start` + data offset). -/
+theorem tcp_csum_valid {pkt : List UInt8} {hdrLen cs g : Nat} {segs : List (List UInt8)}
+    (h : segmentTCP pkt hdrLen cs g = .ok segs) (hwf : v4 pkt ∨ 40 ≤ cs)
+    (hhl : hdrLen = cs + byteAt pkt (cs + 12) / 16 * 4)
+    (hfit : hdrLen + min g (pkt.length - hdrLen) ≤ 65535) (i : Nat) (hi : i < segs.length) :
+    verifies ((segs[i]).drop cs)
+      (pseudoSum (addrBytes pkt (decide (v4 pkt))) 6 ((segs[i]).length - cs)) :=
+  Lemmas.SegmentTop.tcp_csum_valid h hwf hhl hfit i hi
+
+/-- **UDP checksum, zero rule, UDP length, IP lengths, IPv4 ID.** For every emitted UDP segment: the L4
+bytes verify against the pseudo-header (protocol 17); the transmitted checksum is never 0 (RFC 768:
+a computed 0 is sent as 0xffff); the UDP length field is the segment's L4 length; the IPv4 total length
+resp. IPv6 payload length matches the segment; the IPv4 ID is the original + i mod 2^16. -/
+theorem udp_csum_valid {pkt : List UInt8} {hdrLen cs g : Nat} {segs : List (List UInt8)}
+    (h : segmentUDP pkt hdrLen cs g = .ok segs) (hwf : v4 pkt ∨ 40 ≤ cs)
+    (hfit : hdrLen + min g (pkt.length - hdrLen) ≤ 65535) (i : Nat) (hi : i < segs.length) :
+    verifies ((segs[i]).drop cs) (pseudoSum (addrBytes pkt (decide (v4 pkt))) 17 ((segs[i]).length - cs)) ∧
+    be16 (segs[i]) (cs + 6) ≠ 0 ∧
+    be16 (segs[i]) (cs + 4) = (segs[i]).length - cs ∧
+    (v4 pkt → be16 (segs[i]) 2 = (segs[i]).length ∧ be16 (segs[i]) 4 = (be16 pkt 4 + i) % 65536) ∧
+    (¬ v4 pkt → be16 (segs[i]) 4 + 40 = (segs[i]).length) :=
+  Lemmas.SegmentTop.udp_valid h hwf hfit i hi
+
+/-! ### lengths, IDs, sequence numbers, flags as read back from the emitted bytes -/
+
+/-- **IP lengths and IPv4 ID** of every emitted TCP segment: IPv4 total length = segment length and
+ID = original + i (mod 2^16); IPv6 payload length + 40 = segment length. -/
+theorem tcp_ip_lengths_and_id {pkt : List UInt8} {hdrLen cs g : Nat} {segs : List (List UInt8)}
+    (h : segmentTCP pkt hdrLen cs g = .ok segs) (hwf : v4 pkt ∨ 40 ≤ cs)
+    (hfit : hdrLen + min g (pkt.length - hdrLen) ≤ 65535) (i : Nat) (hi : i < segs.length) :
+    (v4 pkt → be16 (segs[i]) 2 = (segs[i]).length ∧ be16 (segs[i]) 4 = (be16 pkt 4 + i) % 65536) ∧
+    (¬ v4 pkt → be16 (segs[i]) 4 + 40 = (segs[i]).length) :=
+  ⟨(tcp_fields h hwf hfit i hi).1, (tcp_fields h hwf hfit i hi).2.1⟩
+
+/-- **Sequence numbers advance by payload** (mod 2^32): segment `i` carries the original sequence
+number + `i · gso_size`, i.e. + the payload bytes of all earlier segments (`tcp_seg_sizes`). -/
+theorem tcp_seq_advance {pkt : List UInt8} {hdrLen cs g : Nat} {segs : List (List UInt8)}
+    (h : segmentTCP pkt hdrLen cs g = .ok segs) (hwf : v4 pkt ∨ 40 ≤ cs)
+    (hfit : hdrLen + min g (pkt.length - hdrLen) ≤ 65535) (i : Nat) (hi : i < segs.length) :
+    be16 (segs[i]) (cs + 4) * 65536 + be16 (segs[i]) (cs + 6)
+      = (be16 pkt (cs + 4) * 65536 + be16 pkt (cs + 6) + i * g) % 4294967296 :=
+  (tcp_fields h hwf hfit i hi).2.2.1
+
+/-- **Flags on the emitted bytes**: with `f` the flags byte of segment `i` and `f0` the superpacket's,
+CWR (0x80) is set iff `f0` has it and `i = 0`; FIN (0x01) and PSH (0x08) are set iff `f0` has them and
+`i` is the last segment; every other bit equals `f0`'s. -/
+theorem tcp_flags_emitted {pkt : List UInt8} {hdrLen cs g : Nat} {segs : List (List UInt8)}
+    (h : segmentTCP pkt hdrLen cs g = .ok segs) (hwf : v4 pkt ∨ 40 ≤ cs)
+    (hfit : hdrLen + min g (pkt.length - hdrLen) ≤ 65535) (i : Nat) (hi : i < segs.length) :
+    let f := byteAt (segs[i]) (cs + 13)
+    let f0 := byteAt pkt (cs + 13)
+    (f / 128 % 2 = if i = 0 then f0 / 128 % 2 else 0) ∧
+    (f % 2 = if i + 1 = segs.length then f0 % 2 else 0) ∧
+    (f / 8 % 2 = if i + 1 = segs.length then f0 / 8 % 2 else 0) ∧
+    f / 2 % 4 = f0 / 2 % 4 ∧ f / 16 % 8 = f0 / 16 % 8 := by
+  intro f f0
+  have hf : f = segFlags f0 i segs.length := (tcp_fields h hwf hfit i hi).2.2.2
+  have hf0 : f0 < 256 := byteAt_lt _ _
+  rw [hf]
+  have k := flags_kept f0 i segs.length hf0
+  refine ⟨?_, ?_, ?_, k.2.2.1, k.2.2.2.1⟩
+  · split
+    · next h0 => exact k.1 h0
+    · next h0 => exact flags_cwr_first_only f0 i _ hf0 h0
+  · split
+    · next hl => exact (k.2.1 (by omega)).1
+    · next hl => exact (flags_fin_psh_last_only f0 i _ hf0 (by omega)).1
+  · split
+    · next hl => exact (k.2.1 (by omega)).2
+    · next hl => exact (flags_fin_psh_last_only f0 i _ hf0 (by omega)).2
+
+example : v4 exTCP4 ∧ 40 = 20 + byteAt exTCP4 (20 + 12) / 16 * 4 ∧ 40 + min 3 (exTCP4.length - 40) ≤ 65535 := by
+  decide
+
+/-! ### the read path: no panic, and it *is* the segmenter -/
+
+/-- **No panic.** For every virtio header (`csum_start` a uint16) and every packet, one tun read
+(`decodeRead` + `SegmentSuperpacket`) never hits a Go run-time panic: every index / slice expression is
+covered by the guards of `CheckValid` and `CorrectHdrLen`. -/
+theorem pipeline_no_panic (h : Hdr) (pkt : List UInt8) (hcs16 : h.csumStart < 65536) :
+    readAndSegment h pkt ≠ .error .panic := by
+  intro he; exact readAndSegment_not_bad h pkt hcs16 _ he (Or.inl rfl)
+
+/-- The read path never leaves the domain on which the functional model of `SegmentTCP` is exact
+(`Err.precond`: a TCP write would land outside the stamped header). -/
+theorem pipeline_never_precond (h : Hdr) (pkt : List UInt8) (hcs16 : h.csumStart < 65536) :
+    readAndSegment h pkt ≠ .error .precond := by
+  intro he; exact readAndSegment_not_bad h pkt hcs16 _ he (Or.inr rfl)
+
+/-- A successful read of a GSO superpacket is a run of `segmentUDP` (header length `csum_start + 8`)
+or of `segmentTCP` with header length `csum_start` + data offset — so every theorem above applies to
+what `decodeRead` + `SegmentSuperpacket` hand to the rest of nebula, with `hhl` discharged. -/
+theorem pipeline_is_segmenter {h : Hdr} {pkt : List UInt8} {segs : List (List UInt8)}
+    (hcs16 : h.csumStart < 65536) (hg : h.gso ≠ GSO_NONE) (he : readAndSegment h pkt = .ok segs) :
+    (h.gso = GSO_UDP_L4 ∧ segmentUDP pkt (h.csumStart + 8) h.csumStart h.gsoSize = .ok segs) ∨
+    ((h.gso = GSO_TCPV4 ∨ h.gso = GSO_TCPV6) ∧
+      segmentTCP pkt (h.csumStart + byteAt pkt (h.csumStart + 12) / 16 * 4) h.csumStart h.gsoSize = .ok segs) :=
+  readAndSegment_gso hcs16 hg he
+
+example : (⟨1, 1, 0, 3, 20, 16⟩ : Hdr).csumStart < 65536 ∧ (⟨1, 1, 0, 3, 20, 16⟩ : Hdr).gso ≠ GSO_NONE := by decide
 
 /-! ### non-vacuity and end-to-end sanity: the model run on concrete superpackets satisfies the whole
 specification (count, sizes, payload concatenation, IP lengths, IPv4 ID increment through the 0xffff
